@@ -174,6 +174,33 @@ def enumerate_small() -> Iterator[Any]:
             yield ["seq", seq]
 
 
+def enumerate_bare_breaks() -> Iterator[Any]:
+    """F-adjacent definitions (outside F's grammar: a loop directly followed by a fork, a break branch without an
+    event of its own): an outer loop whose body holds a nested loop and then a choice between leaving the outer loop
+    and carrying on — A; repeat{B; repeat{C[;C']}; [E;] XOR{[F;] break | G}; [H]}; [D].  The unchanged learner
+    emits a well-formed diagram with exactly the input's names for all 64 of them (hash seeds 0-9; C01's acceptance
+    clause does NOT hold for those without an event after the outer loop, which is why only C05 uses them); they
+    exercise the re-attachment of
+    break nodes below a switch and the clean-up of nested sub graphs"""
+    import itertools
+    for between, own, rev, after, tail, inner2 in itertools.product([0, 1], repeat=6):
+        ng = NameGen()
+
+        def E() -> Any:
+            return ["ev", ng.fresh()]
+        a, b = E(), E()
+        inner = ["loop", ["seq", [E()] + ([E()] if inner2 else [])]]
+        body = [b, inner] + ([E()] if between else [])
+        brk = ([E()] if own else []) + [["brk"]]
+        xor = ["fork", "XOR", [["seq", brk], ["seq", [E()]]]]
+        if rev:
+            xor[2].reverse()
+        body.append(xor)
+        if after:
+            body.append(E())
+        yield ["seq", [a, ["loop", ["seq", body]]] + ([E()] if tail else [])]
+
+
 def enumerate_loop_tails() -> Iterator[Any]:
     """loops that end in a fork (and loops with a break), placed in every kind of surrounding: followed by an event,
     as the last statement of an enclosing loop body (followed or not inside it), and as the tail of an XOR / AND /
